@@ -79,6 +79,20 @@ def _5(a):
     return a + 1
 
 
+# 6. builtins referenced by bare name in generated code (call_trees.py: ast.Name('tuple') / ast.Name('dict'))
+def star_call_tuple(tuple, b):
+    return h2(b, *tuple)                        # (b,) + tuple(tuple): TypeError 'tuple' object is not callable
+
+
+def kw_call_dict(a):
+    dict = 3
+    return h2(a, z=dict)                        # dict(z=dict): TypeError 'int' object is not callable
+
+
+def h2(*a, **k):
+    return (a, sorted(k.items()))
+
+
 # not findings (decided with evidence): reserved because read / declared, or not visible
 def fscope_parameter_read(fscope):
     return h(fscope)                            # fscope_1 is generated
@@ -114,7 +128,7 @@ def f_7(a):
 
 CASES = [(bound_only, (6,)), (bound_only_fscope, ([1, 2],)), (comprehension_target, ([1, 2],)), (lambda_parameter, (3,)),
          (nonlocal_in_nested, (4,)), (lambda_entity, (1, 2)), (late_global, (3,)), (vars_modified, (3,)), (ag_parameter, (3,)),
-         (_5, (3,)), (fscope_parameter_read, (3,)), (global_declared, (3,)), (local_inner_factory, (3,)), (numbered_variant, (2,)),
+         (_5, (3,)), (star_call_tuple, ((1, 2), 3)), (kw_call_dict, (1,)), (fscope_parameter_read, (3,)), (global_declared, (3,)), (local_inner_factory, (3,)), (numbered_variant, (2,)),
          (f_7, (3,))]
 
 if __name__ == '__main__':
